@@ -66,13 +66,110 @@ def scenario(kind):
     return viol, obs
 
 
+def _stat(pid):
+    try:
+        with open(f'/proc/{pid}/stat') as f:
+            data = f.read()
+    except OSError:
+        return None
+    rest = data[data.rindex(')') + 2:].split()
+    return {'state': rest[0], 'ppid': int(rest[1]), 'start': rest[19]}
+
+
+def descendants(root):
+    table = {}
+    for name in os.listdir('/proc'):
+        if name.isdigit():
+            st = _stat(int(name))
+            if st is not None:
+                table[int(name)] = st
+    found, frontier = {}, [root]
+    while frontier:
+        cur = frontier.pop()
+        for pid, st in table.items():
+            if st['ppid'] == cur and pid not in found:
+                found[pid] = st['start']
+                frontier.append(pid)
+    return found
+
+
+def survivors(procs):
+    out = []
+    for pid, start in procs.items():
+        st = _stat(pid)
+        if st is not None and st['start'] == start and st['state'] not in 'ZX':
+            out.append(pid)
+    return sorted(out)
+
+
+def context_scenario():
+    """SIGTERM to a server that holds a context with two persistent workers (one idle from the start, one idle after work) and a plain
+    child: every descendant of the server must be gone shortly afterwards and every parent-side worker must find out"""
+    from pyworkers.persistent_remote import PersistentRemoteWorker
+    from pyworkers.remote_context import RemoteContext
+    viol, obs = [], {}
+    server = spawn_server(('127.0.0.1', 0))
+    procs = {}
+    try:
+        workers = [('one-shot child', RemoteWorker(T.cooperative_loop, host=server.addr))]
+        ctx = RemoteContext(12, target=T.square, host=server.addr)
+        workers.append(('persistent worker in a context, idle', PersistentRemoteWorker(None, host=ctx.host, context=ctx.context_id)))
+        busy = PersistentRemoteWorker(None, host=ctx.host, context=ctx.context_id)
+        workers.append(('persistent worker in a context, idle after work', busy))
+        busy.enqueue(3)
+        obs['first_result'] = busy.next_result()
+        time.sleep(0.5)
+        procs = descendants(server.pid)
+        obs['descendants'] = len(procs)
+        t0 = time.monotonic()
+        os.kill(server.pid, signal.SIGTERM)
+        deadline = t0 + 6
+        while (survivors(procs) or server.is_alive()) and time.monotonic() < deadline:
+            time.sleep(0.05)
+        left = survivors(procs)
+        obs['left'] = left
+        if left:
+            viol.append(f'context: processes spawned by the server still running 6 s after SIGTERM: {left} (of {sorted(procs)})')
+        # only is_alive(): wait() of a persistent worker closes its input, which would release a left-over child
+        for desc, w in workers:
+            alive = w.is_alive()
+            while alive and time.monotonic() < deadline + 2:
+                time.sleep(0.05)
+                alive = w.is_alive()
+            if alive:
+                viol.append(f'context: [{desc}] the parent-side worker did not find out: is_alive() is still True, has_error={w.has_error}')
+            elif w.has_error is not True:
+                viol.append(f'context: [{desc}] dead but has_error={w.has_error!r}')
+    except Exception as e:     # noqa
+        viol.append(f'context scenario could not be set up: {type(e).__name__}: {e}')
+        obs['setup_error'] = True
+    finally:
+        for p in list(survivors(procs)) + [server.pid]:
+            try:
+                os.kill(p, signal.SIGKILL)
+            except Exception:
+                pass
+    return viol, obs
+
+
 def main():
     sc = json.loads(sys.argv[1])
     viol, obs = [], {}
+
+    def watchdog():
+        print(json.dumps({'violates': True, 'violations': viol + ['watchdog: the scenarios did not finish within 150 s (something blocks)'], 'observed': obs, 'scenario': sc}, default=repr))
+        sys.stdout.flush()
+        os._exit(0)
+    tm = threading.Timer(150, watchdog)
+    tm.daemon = True
+    tm.start()
     for kind in ('terminate_short', 'sigterm'):
         v, o = scenario(kind)
         viol += v
         obs[kind] = o
+    v, o = context_scenario()
+    viol += v
+    obs['context'] = o
     print(json.dumps({'violates': bool(viol), 'violations': viol, 'observed': obs, 'scenario': sc}, default=repr))
     sys.stdout.flush()
     os._exit(0)
